@@ -25,7 +25,7 @@ pub fn plan(quick: bool) -> Vec<Part> {
     let (l5, t5) = if quick { (8, 7) } else { (10, 9) };
     let l6 = if quick { 8 } else { 10 };
     v.push(Part::new("C20", "R1+RT", 4, Space::singles(4, l4).plus(Space::thresholds(4, t4)).plus(Space { segs: vec![vcommon::families::Seg::Single(3)] })));
-    v.push(Part::new("C20", "R2", 4, Space::pairs(4, p4)));
+    v.push(Part::new("C20", "R2", 4, if quick { Space { segs: vec![vcommon::families::Seg::Pair(4, 4), vcommon::families::Seg::Pair(5, 4)] } } else { Space::pairs(4, p4) }));
     v.push(Part::new("C20", "R1+RT", 5, Space::singles(5, l5).plus(Space::thresholds(5, t5))));
     v.push(Part::new("C20", "R1", 6, Space::singles(6, l6)));
     if !quick {
@@ -35,7 +35,9 @@ pub fn plan(quick: bool) -> Vec<Part> {
     v.push(Part::new("C20", "handbuilt-node-lists", 4, if quick { Space::singles(4, 6).plus(Space { segs: vec![vcommon::families::Seg::Pair(4, 4), vcommon::families::Seg::Pair(5, 4)] }) } else { Space::singles(4, 8).plus(Space::pairs(4, 5)).plus(Space::triples(4, 4)) }).dim("handbuilt", &[1]));
     for k in BIG_K {
         v.push(Part::new("C20", "catalogue", k, Space { segs: vec![catalogue(k)] }));
-        v.push(Part::new("C20", "lifted", k, vcommon::families::lifted(k, !quick)));
+        if !quick || LIFT_QUICK_K.contains(&k) {
+            v.push(Part::new("C20", "lifted", k, vcommon::families::lifted(k, !quick)));
+        }
     }
     v
 }
@@ -108,8 +110,11 @@ fn check_gfa(o: &mut Outcome, what: &str, txt: &str, g: &GraphV<u16>, tags: Opti
                     o.fail("gfa-segment-wrong", format!("[{}] S line {:?}, node sequence {}", what, l, ascii(&g.nodes[id].seq)));
                 }
                 if let Some(tf) = tags {
-                    if f.get(3).copied() != Some(tf(id).as_str()) {
-                        o.fail("gfa-segment-wrong", format!("[{}] S line {:?} lacks its tag", what, l));
+                    // an empty tag string may be written as an empty trailing field or left out
+                    let want = tf(id);
+                    let ok = if want.is_empty() { f.len() == 3 || (f.len() == 4 && f[3].is_empty()) } else { f.get(3).copied() == Some(want.as_str()) };
+                    if !ok {
+                        o.fail("gfa-segment-wrong", format!("[{}] S line {:?} lacks its tag {:?}", what, l, want));
                     }
                 }
             }
@@ -391,8 +396,18 @@ pub fn run<K: Kmer + Send + Sync + Serialize + DeserializeOwned>(c: &GCase) -> O
         // tags contain a tab: compare the first tag only via closure producing the same text up to the tab
         let gv2 = gv.clone();
         check_gfa(&mut o, "to_gfa_with_tags", &txt, &gv, Some(&move |i: usize| format!("LN:i:{}", gv2.nodes[i].seq.len())));
+        // tag functions that return nothing for some / all nodes: every record must still be a line of its own
+        for which in 0..2usize {
+            g.to_gfa_with_tags(&p, |n| if which == 0 || n.node_id % 2 == 0 { String::new() } else { format!("LN:i:{}", n.len()) }).expect("to_gfa_with_tags");
+            let txt = std::fs::read_to_string(&p).expect("read gfa");
+            let gv3 = gv.clone();
+            check_gfa(&mut o, if which == 0 { "to_gfa_with_tags(empty tags)" } else { "to_gfa_with_tags(tags on odd nodes)" }, &txt, &gv, Some(&move |i: usize| if which == 0 || i % 2 == 0 { String::new() } else { format!("LN:i:{}", gv3.nodes[i].seq.len()) }));
+            if !txt.ends_with('\n') {
+                o.fail("gfa-segment-wrong", "[to_gfa_with_tags] the file does not end with a newline".into());
+            }
+        }
         let _ = std::fs::remove_file(&p);
-        o.transitions += 2;
+        o.transitions += 4;
     }
     // JSON export
     {
